@@ -71,6 +71,27 @@ def histories():
     for label, size, fmt in confs:
         head = ["dev %d 0" % size, "wlog 0", fmt, "mount 1 0 lossy"]
         out.append((label, head, base))
+    # error paths: calls that FAIL part-way for want of room (a 16-entry fixed root that is full while clusters are free; a
+    # sub-directory whose last cluster is full on a volume with exactly one / no free cluster) and what they undo - the cluster
+    # a create_dir has already taken is given back, a rename keeps its source; a storage error during that undo is an I/O error
+    full_root = ["create_file 0 %s 1" % hexs("root file %d" % j) for j in range(7)] + ["drop_all",                  # 7 x 2 slots
+                 "create_dir 0 %s 2" % hexs("D"),                                                                   # slot 15
+                 "create_file 2 %s 3" % hexs("inside.txt"), "write_pat 3 600 1", "drop_file 3",
+                 "create_file 0 %s 3" % hexs("LAST"), "drop_file 3",                                                # slot 16: the root is full
+                 "create_dir 0 %s 4" % hexs("no room for this directory"), "create_file 0 %s 5" % hexs("no room for this file.txt"),
+                 "create_dir 0 %s 4" % hexs("NOROOM"), "create_file 0 %s 5" % hexs("NOROOM2"),
+                 "rename 0 %s 0 %s" % (hexs("D/inside.txt"), hexs("moved into the full root.txt")),
+                 "rename 0 %s 0 %s" % (hexs("D/inside.txt"), hexs("INROOT.TXT")),
+                 "stats", "list 0", "remove 0 %s" % hexs("root file 3"), "create_dir 0 %s 6" % hexs("fits now"), "list 0", "drop_all", "unmount"]
+    for label, size, fmt in [("fat12-root16-full", 400 * 512, "format 512 400 512 12 16 2 - - -"), ("fat16-root16-full", 4400 * 512, "format 512 4400 512 16 16 2 - - -")]:
+        out.append((label, ["dev %d 0" % size, "wlog 0", fmt, "mount 1 0 lossy"], full_root))
+    # 24 sectors: 1 reserved + 2 FATs of 1 + 2 root sectors = 5 -> 19 clusters of 512 bytes
+    full_sub = ["create_dir 0 %s 1" % hexs("sub")] + ["create_file 1 %s 2" % hexs("e%d" % j) for j in range(7)] + ["drop_file 2",    # 2 + 7*2 = 16 slots: full
+                "create_file 0 %s 3" % hexs("filler.bin"), "write_pat 3 %d 5" % (17 * 512), "drop_file 3", "stats",               # one cluster left
+                "create_dir 1 %s 4" % hexs("a new directory with a long name"),       # takes the last cluster, then cannot grow sub: gives it back
+                "create_file 1 %s 5" % hexs("a new file with a long name.txt"),        # grows sub with the last cluster
+                "create_dir 1 %s 4" % hexs("second dir"), "create_file 1 %s 6" % hexs("x" * 200), "stats", "list 1", "drop_all", "unmount"]
+    out.append(("fat12-sub-full", ["dev %d 0" % (24 * 512), "wlog 0", "format 512 24 512 12 32 2 - - -", "mount 1 0 lossy"], full_sub))
     return out
 
 def run(rep, tier, seed):
